@@ -5,7 +5,7 @@ import vlib
 from vlib import Undecided
 from units import broker_common
 
-def build(U, standalone=True):
+def parts(U):
     S = U.src('src/broker/update.rs')
     fobj = S.fn('takeover_master')
     fobj.r1_logging()
@@ -189,18 +189,10 @@ pub open spec fn takeover_post(oc: ClusterStore, nc: ClusterStore, failed: Seq<c
 }
 
 impl MetaStore {
-    pub fn bump_global_epoch(&mut self) -> (r: u64)
-        requires old(self).global_epoch < u64::MAX
-        ensures final(self).global_epoch == old(self).global_epoch + 1, r == final(self).global_epoch,
-            final(self).clusters == old(self).clusters, final(self).all_proxies == old(self).all_proxies,
-            final(self).failed_proxies == old(self).failed_proxies, final(self).failures == old(self).failures,
-    {
-        self.global_epoch += 1;
-        self.global_epoch
-    }
+//@@BUMP@@
 }
-pub struct MetaStoreUpdate<'a> { store: &'a mut MetaStore }
-impl<'a> MetaStoreUpdate<'a> {
+//@@SPECS_END@@
+//@@CONTRACT_BEGIN@@
 '''
     contract='''    fn takeover_master(
         &mut self,
@@ -212,18 +204,16 @@ impl<'a> MetaStoreUpdate<'a> {
             vstd::std_specs::hash::obeys_key_model::<ClusterName>(),
         ensures
             final(self).store.global_epoch == old(self).store.global_epoch + 1,
-            final(self).store.failed_proxies == old(self).store.failed_proxies,
+            final(self).store.failed_proxies == old(self).store.failed_proxies, final(self).store.failures == old(self).store.failures,
+            final(self).store.all_proxies == old(self).store.all_proxies, final(self).store.enable_ordered_proxy == old(self).store.enable_ordered_proxy,
+            final(self).store.version == old(self).store.version,
             r is Err ==> final(self).store.clusters@ == old(self).store.clusters@ && !old(self).store.clusters@.contains_key(*cluster_name),
             r is Ok ==> old(self).store.clusters@.contains_key(*cluster_name)
                 && final(self).store.clusters@ == old(self).store.clusters@.insert(*cluster_name, final(self).store.clusters@[*cluster_name])
                 && takeover_post(old(self).store.clusters@[*cluster_name], final(self).store.clusters@[*cluster_name], failed_proxy_address@, final(self).store.global_epoch),
 '''
     body = f[f.index(') -> Result<(), MetaStoreError> {') + len(') -> Result<(), MetaStoreError> '):]
-    if standalone:
-        broker_common.head(U)
-        s = broker_common.types(U) + specs + contract + body + "\n}\n"
-    else:
-        s = specs + contract + body + "\n}\n"
+    s = specs + contract + "//@@CONTRACT_END@@\n" + body + "\n}\n"
     def must(old, new, count=1):
         nonlocal s
         need(s.count(old) >= 1, old[:60])
@@ -342,11 +332,39 @@ pub open spec fn hit_post(a: ChunkStore, b: ChunkStore, failed: Seq<char>, e: u6
 '''+m.group(2)
     s=re.sub(r'(                    \}\n                \}\n)(                proof \{\n                    let sq)', repl3, s)
     need(cnt3==2, 'two both_moved blocks followed by hints')
-    fobj.text = s
-    U.add_fn(fobj)
+    bump = bump_global_epoch(U)
+    specs_final = s[:s.index('//@@SPECS_END@@')].replace('//@@BUMP@@', bump.text)
+    contract_final = s[s.index('//@@CONTRACT_BEGIN@@') + len('//@@CONTRACT_BEGIN@@\n'):s.index('//@@CONTRACT_END@@')]
+    fobj.text = contract_final + s[s.index('//@@CONTRACT_END@@') + len('//@@CONTRACT_END@@\n'):]
+    fobj.text = fobj.text[:fobj.text.rindex('}')]     # closing brace of the impl is added by the caller
+    return {'specs': specs_final, 'contract': contract_final, 'fn': fobj, 'bump': bump}
+
+
+def bump_global_epoch(U):
+    S = U.src('src/broker/store.rs')
+    b = S.fn('bump_global_epoch', within=r'impl MetaStore\b')
+    b.header("""    pub fn bump_global_epoch(&mut self) -> (r: u64)
+        requires old(self).global_epoch < u64::MAX
+        ensures final(self).global_epoch == old(self).global_epoch + 1, r == final(self).global_epoch,
+            final(self).clusters == old(self).clusters, final(self).all_proxies == old(self).all_proxies,
+            final(self).failed_proxies == old(self).failed_proxies, final(self).failures == old(self).failures,
+            final(self).enable_ordered_proxy == old(self).enable_ordered_proxy, final(self).version == old(self).version,""")
+    return b
+
+
+UPDATE_STRUCT = "pub struct MetaStoreUpdate<'a> { pub store: &'a mut MetaStore }\n"
+
+
+def build(U):
+    broker_common.head(U)
+    U.add(broker_common.types(U))
+    P = parts(U)
+    U.add(P['specs'])
+    U.add(UPDATE_STRUCT + "impl<'a> MetaStoreUpdate<'a> {\n")
+    U.add_fn(P['fn'])
+    U.add("}\n")
     U.prelude('c06_lemma.rs')
-    if standalone:
-        U.add("} // verus!\nfn main() {}\n")
+    U.add("} // verus!\nfn main() {}\n")
 
 MUST_FAIL = '''
 // the trusted T-iter axiom must not prove that an element modified before `break` is unchanged
